@@ -8,7 +8,7 @@ use crate::{
     scenes::{Mailbox, SpawnCfg, Strat},
     trace::An,
     vexec::ExecCfg,
-    world::{Cb, Res, RoleCfg, StartBeh, Work},
+    world::{Action, Cb, Res, RoleCfg, StartBeh, Work},
 };
 
 #[derive(Clone, Copy, Debug, PartialEq, Eq)]
@@ -39,6 +39,9 @@ pub enum Resolver {
     /// await the address, then - the actor is gone - make new handles from a remaining address
     /// (sender, caller, weak round trip) and submit through them: errors, like everything else
     AwaitThenConvert,
+    /// a join future is taken, then the owner is dropped like everybody else's handles: the
+    /// future resolves when the actor - nothing keeps it alive - has ended
+    JoinKeptOwnerDropped,
 }
 
 pub struct X {
@@ -173,11 +176,22 @@ pub fn oracle(s: &ProgScene<X>, t: &Trace) -> Vec<Violation> {
         }
     }
     if term.is_none() {
-        out.push(Violation {
-            clause: "scene-terminates",
-            key: format!("C02/actor-alive-at-quiescence/cause={ck}"),
-            detail: "harness scene error: the actor never terminated".into(),
-        });
+        if cause == Cause::LastDrop {
+            // every client has let go of its handles (that is the cause): whoever still waits -
+            // a join future taken before the owner was dropped - waits for an end that must come
+            let waiting = an.ops.iter().filter(|o| o.end.is_none()).count();
+            out.push(Violation {
+                clause: "resolves-after-termination",
+                key: "C02/hang/last-drop-did-not-end-the-actor".into(),
+                detail: format!("every strong handle was dropped but the actor never ended; {waiting} operation(s) are still waiting for it"),
+            });
+        } else {
+            out.push(Violation {
+                clause: "scene-terminates",
+                key: format!("C02/actor-alive-at-quiescence/cause={ck}"),
+                detail: "harness scene error: the actor never terminated".into(),
+            });
+        }
     }
     out
 }
@@ -215,6 +229,7 @@ pub fn make_case(progs: &[Vec<L>], cause: Cause, resolver: Resolver, mailbox: Ma
                 Op::Ping(H::Addr(1)),
             ],
         }),
+        Resolver::JoinKeptOwnerDropped if own_free => clients.push(ClientSpec { init: vec![HInit::Own], ops: vec![Op::JoinStart(H::Own(0)), Op::Drop(H::Own(0)), Op::JoinAwait(0)] }),
         Resolver::Join if own_free => clients.push(ClientSpec { init: vec![HInit::Own], ops: vec![Op::Join(H::Own(0))] }),
         Resolver::JoinTwice if own_free => clients.push(ClientSpec { init: vec![HInit::Own], ops: vec![Op::Join(H::Own(0)), Op::Join(H::Own(0))] }),
         Resolver::JoinInFlight if own_free => {
@@ -225,6 +240,11 @@ pub fn make_case(progs: &[Vec<L>], cause: Cause, resolver: Resolver, mailbox: Ma
     let mut role = RoleCfg::default();
     let mut spawn = SpawnCfg { mailbox, strat: Strat::Default, timeout: None };
     let mut exec = ExecCfg::default();
+    if resolver == Resolver::JoinKeptOwnerDropped {
+        // ... also when the actor runs timers of its own (which never keep it alive)
+        role.started_actions = vec![Action::Interval { timer: 1, period: 2 }, Action::IntervalWith { timer: 2, period: 3 }];
+        exec.horizon = 12;
+    }
     // a join future that is polled exactly once sees whether the handle's lock suspends
     exec.lock_yield_is_choice = resolver == Resolver::JoinInFlight;
     match cause {
@@ -259,7 +279,7 @@ pub fn make_case(progs: &[Vec<L>], cause: Cause, resolver: Resolver, mailbox: Ma
 fn resolvers_for(cause: Cause) -> Vec<Resolver> {
     match cause {
         // awaiting or joining keeps a strong handle: nobody would ever stop the actor
-        Cause::LastDrop => vec![Resolver::None],
+        Cause::LastDrop => vec![Resolver::None, Resolver::JoinKeptOwnerDropped],
         Cause::StoppedPanic => vec![Resolver::Halt],
         Cause::HandlerPanic(_) | Cause::TimeoutFail(_) | Cause::StartErr | Cause::StartPanic | Cause::StopClient => {
             vec![Resolver::None, Resolver::Halt, Resolver::Await, Resolver::Join, Resolver::JoinTwice, Resolver::JoinInFlight, Resolver::AwaitThenConvert]
@@ -293,7 +313,7 @@ fn plain_cases(tier: Tier) -> Vec<Case> {
         for &cause in &causes {
             for resolver in resolvers_for(cause) {
                 for a in first0 {
-                    if a == L::CallOwn && matches!(resolver, Resolver::Join | Resolver::JoinTwice | Resolver::JoinInFlight) {
+                    if a == L::CallOwn && matches!(resolver, Resolver::Join | Resolver::JoinTwice | Resolver::JoinInFlight | Resolver::JoinKeptOwnerDropped) {
                         continue;
                     }
                     for s2 in second {
@@ -305,6 +325,10 @@ fn plain_cases(tier: Tier) -> Vec<Case> {
                                 continue;
                             }
                             if tier == Tier::Quick && matches!(s2, Some(L::CallAbandon | L::SendAbandon)) && !(a == L::CallAddr && b == L::CallCal) {
+                                continue;
+                            }
+                            // (timers multiply the schedules: one program shape is enough for this resolver)
+                            if resolver == Resolver::JoinKeptOwnerDropped && !(a == L::CallAddr && b == L::CallCal && (s2.is_none() || s2 == Some(L::SendAddr))) {
                                 continue;
                             }
                             v.push(make_case(&[p0, vec![b]], cause, resolver, mb, None));
